@@ -24,14 +24,14 @@ CHECKS = {
     "C04": {
         "technique": "AST def-use / lineage evaluation of the tau-thresholding pipeline, closed-term check of the tau formula, MIR def-use of builder call order",
         "level": "Decides parameter agreement of cap/noise/tau/event (K1), the pipeline order dedupe->cap->count->noise->filter->project on every non-error return (K2), strict lower-bound filter on the noisy count (K3), the public-values gate (K4), "
-                 "aggregation over the join with released keys (K5), the closed form of tau (K6), that no builder restores the unprotected input (B1) that no filter is applied to a still-empty builder, where it would be dropped (B2) and that every Map re-builder re-applies filter / order_by / limit / offset unconditionally (B3), and that the contribution cap ranks the rows of a unit by a self-join on one random column and keeps those ranked <= max (K7). Randomness and SQL semantics of the produced relation are not decided.",
+                 "aggregation over the join with released keys (K5), the closed form of tau (K6), that no builder restores the unprotected input (B1) that no filter is applied to a still-empty builder, where it would be dropped (B2) and that every Map re-builder re-applies filter / order_by / limit / offset unconditionally (B3), and that the contribution cap ranks the rows of a unit by a self-join on one random column and keeps those ranked <= max (K7), that the relation-level noise step adds the noise to every listed column (K8) and that Reduce re-builders keep the GROUP BY (B4). Randomness and SQL semantics of the produced relation are not decided.",
         "design_ref": "DESIGN.md §3 C04",
         "note": "Trusted: Relation::unique does what its name says (body not analysed); statrs Normal::inverse_cdf.",
     },
     "C05": {
         "technique": "AST term/arm tables of PrivacyUnitTracking and JoinBuilder::and, MIR aggregate facts for the PupRelation typestate, MIR def-use of builder call order, sibling cross-check of the protected-table predicate",
         "level": "Decides the structural necessary conditions of 'a tracked row depends only on its own unit': unit-id equality ANDed onto the original operator (Y1), tracked-side columns in published joins (Y1b), group-by-unit under Hard / refusal under Soft with a grouping call that is effective whatever outputs were added before (Y2), "
-                 "closed PupRelation typestate (Y3), inner FK join on the right ids (Y4), JoinBuilder::and covers every ON-carrying join kind (Y5), map/set carry the unit columns (Y6), non-null output unit id for every row the join kind keeps (Y7), chaining of foreign-key hops (Y8), builder order (B1), setter/tracker agreement (T5).",
+                 "closed PupRelation typestate (Y3), inner FK join on the right ids (Y4), JoinBuilder::and covers every ON-carrying join kind (Y5), map/set carry the unit columns (Y6), non-null output unit id for every row the join kind keeps (Y7), chaining of foreign-key hops (Y8), the row pseudo-column materialised before it is fetched (Y9), builder order (B1), setter/tracker agreement (T5).",
         "design_ref": "DESIGN.md §3 C05",
         "note": "Not decided: 'exactly the rows of D restricted to u' over all databases.",
     },
@@ -65,7 +65,7 @@ CHECKS = {
     },
     "C11": {
         "technique": "MIR who-may-write facts for the interval vector and return-place dominance in the two mutators; AST rules for hull construction; simulated ordered match over all variant pairs for the four lattice operations",
-        "level": "Decides encapsulation of the interval-set invariant (L1), that simplification returns self or the min/max hull (L2), conservative defaults and neutral/absorbing elements of the cross-variant dispatch over all 21x21 pairs (L3) the conversion direction of cross-variant arms (L4), component-wise composite operations (L5), least/greatest Bound values (L6), an order on interval sets that is inclusion (L7), same-variant union / intersection of the interval-set variants (L8), container inclusion as the conjunction of whole-component inclusions (L9) and untruncated value enumerations (N1). "
+        "level": "Decides encapsulation of the interval-set invariant (L1), that simplification returns self or the min/max hull (L2), conservative defaults and neutral/absorbing elements of the cross-variant dispatch over all 21x21 pairs (L3) the conversion direction of cross-variant arms (L4), component-wise composite operations (L5), least/greatest Bound values (L6), an order on interval sets that is inclusion (L7), same-variant union / intersection of the interval-set variants (L8), container inclusion as the conjunction of whole-component inclusions (L9), container membership tested on every component (L10) and untruncated value enumerations (N1). "
                  "Index arithmetic of union/intersection and per-variant laws over values are not decided.",
         "design_ref": "DESIGN.md §3 C11",
         "note": "L1(d) compile-fail witnesses are in /verif/witness (thorough tier).",
@@ -73,20 +73,20 @@ CHECKS = {
     "C08": {
         "technique": "join of the renderer table (variant -> translator method -> SQL spelling, from type-resolved MIR switch/const facts) with the reader table (SQL name -> operator, from the syn AST); positional slot tables of the CTE renderer; oracle table of standard SQL names",
         "level": "Decides, for every operator the SQL reader can produce, that it is rendered without abort (E3) under a spelling the reader maps back to the same operator (E4), that standard SQL names have their standard meaning (E5), that every component of a relation node and every alias is rendered "
-                 "inside the node's CTE (E7, E8), that operator operands are parenthesised (E9), that GROUP BY prefers input columns over aliases (E10), that the builders keep the WHERE on every split shape (E11), that nested CASE is merged in order (E12) that CTE lists of binary nodes are merged through one set (E13), that float literals are written with round-trip precision (E14), that the Map/Reduce split keeps the order of select items (E15) that CTE definitions are spelled like their references (E16), that literals are rendered through exact (transparent) Display impls (E17), that a name becomes a one-component identifier (E18), that the default sort direction is ascending on both sides (E19) and that in every dialect the columns of a Map / Reduce CTE are named by the column list or by aliases that survive the dialect's hooks (E8), that the trailing SELECT of a node does not re-apply OFFSET / WHERE / GROUP BY (E7), that join kinds are the same on both sides of the renderer and of the reader (E20) that base tables are named by their path (E21), that the operands of a set operation are read in the order written (E22) and that the column list of every CTE that has one is recorded (E23). Execution on databases, name resolution as a whole and the Map/Reduce split are not decided.",
+                 "inside the node's CTE (E7, E8), that operator operands are parenthesised (E9), that GROUP BY prefers input columns over aliases (E10), that the builders keep the WHERE on every split shape (E11), that nested CASE is merged in order (E12) that CTE lists of binary nodes are merged through one set (E13), that float literals are written with round-trip precision (E14), that the Map/Reduce split keeps the order of select items (E15) that CTE definitions are spelled like their references (E16), that literals are rendered through exact (transparent) Display impls (E17), that a name becomes a one-component identifier (E18), that the default sort direction is ascending on both sides (E19) and that in every dialect the columns of a Map / Reduce CTE are named by the column list or by aliases that survive the dialect's hooks (E8), that the trailing SELECT of a node does not re-apply OFFSET / WHERE / GROUP BY (E7), that join kinds are the same on both sides of the renderer and of the reader (E20) that base tables are named by their path (E21), that the operands of a set operation are read in the order written (E22) that the column list of every CTE that has one is recorded (E23), that negated predicates are read with their negation (E25), that ORDER BY / LIMIT / OFFSET are skipped only when all three are absent (E26) and that unaliased column references keep their own name (E27). Execution on databases, name resolution as a whole and the Map/Reduce split are not decided.",
         "design_ref": "DESIGN.md §3 C08",
         "note": "Trusted: sqlparser parses NAME(args) into a Function node of that name (keyword functions listed); operators map to same-named ast operators.",
     },
     "C12": {
         "technique": "arm-table parity of super_image / value over the syn AST, must-pass-through of the checked_* guards, MIR cast facts with dominating round-trip tests, reviewed table of the 14 primitive pairs",
-        "level": "Decides set/value parity of the 24 dispatching injections (J1), that primitive values and images go through the checked guards (J2), that lossy numeric casts are dominated by a round-trip test (J3), that narrowing / non-monotone conversions can refuse and only map single values (J4), untruncated value enumerations (N1), a single value-conversion entry point (J5) text renderings that print a wrapper only through a transparent Display (J6), a full-type (or refusing) fallback image for sets that are not enumerated (J4) inner injections that go from the domain side to the co-domain side (J7) and per-variant tables of DataType (minimal_subset / maximal_superset / try_empty) that dispatch every payload-carrying variant (J8). "
+        "level": "Decides set/value parity of the 24 dispatching injections (J1), that primitive values and images go through the checked guards (J2), that lossy numeric casts are dominated by a round-trip test (J3), that narrowing / non-monotone conversions can refuse and only map single values (J4), untruncated value enumerations (N1), a single value-conversion entry point (J5) text renderings that print a wrapper only through a transparent Display (J6), a full-type (or refusing) fallback image for sets that are not enumerated (J4) inner injections that go from the domain side to the co-domain side (J7) and per-variant tables of DataType (minimal_subset / maximal_superset / try_empty) that dispatch every payload-carrying variant (J8) and an empty-type co-domain accepted only for the empty set (J9). "
                  "Injectivity of format!-based renderings and composite liftings over all values are not decided.",
         "design_ref": "DESIGN.md §3 C12",
         "note": "Trusted: the reviewed classification of primitive pairs (PAIRS in qv/c12.py); a new pair is UNDECIDED.",
     },
     "C14": {
         "technique": "audit of the bijection list against a reviewed injective table, decision-term extraction of Reduce::schema_aggregate, flag pairing in Join::schema, who-may-attach-a-constraint inventory (syn AST)",
-        "level": "Decides that uniqueness is only propagated through functions reviewed as injective (U1), that a group key's UNIQUE depends on the grouping, with one convention shared by the builders that emit First(..) and the schema that reads them (U2), that join constraints are kept under the other side's key uniqueness with both sides involved (U3), that Values is UNIQUE only when literals are distinct (U4), that the key predicate is true exactly for Unique / PrimaryKey (U5) that no other site attaches constraints (U0) and that constraints are read through an exact field lookup (H8).",
+        "level": "Decides that uniqueness is only propagated through functions reviewed as injective (U1), that a group key's UNIQUE depends on the grouping, with one convention shared by the builders that emit First(..) and the schema that reads them (U2), that join constraints are kept under the other side's key uniqueness with both sides involved (U3), that Values is UNIQUE only when literals are distinct (U4), that the key predicate is true exactly for Unique / PrimaryKey (U5) that no other site attaches constraints (U0), that constraints are read through an exact field lookup (H8) and that MS SQL draws random() once per row (U7).",
         "design_ref": "DESIGN.md §3 C14",
         "note": "Trusted: base tables honour their constraints; floating-point collisions of exp/ln/sqrt and md5 collisions accepted by the reviewed table.",
     },
@@ -114,14 +114,14 @@ CHECKS = {
     "C13": {
         "technique": "arm/term tables over the syn AST: selector/eliminator predicate atoms, origin-tracking mini-evaluator for the cartesian enumeration and child order, arg-max comparator shape",
         "level": "Decides the clauses of C13 that are in the shape of the code: the derivation applied is well-typed (G1 positional agreement, G4 child order), all consistent choices are enumerated (G2 cartesian product, no truncation; G5 drivers return what the visitor computed, de-duplication only under structural equality), "
-                 "the best-scoring accepted candidate is returned or unreachable_property reported (G3), the accepted root labels are exactly the reviewed sets (G6), the score is additive with the reviewed ranking (G7) and each entry point searches the rule set of the documented strategy (G8). Completeness over all trees is not decided.",
+                 "the best-scoring accepted candidate is returned or unreachable_property reported (G3), the accepted root labels are exactly the reviewed sets (G6), the score is additive with the reviewed ranking (G7) each entry point searches the rule set of the documented strategy (G8) and every aggregate the setter accepts has an arm in the DP applier (G9). Completeness over all trees is not decided.",
         "design_ref": "DESIGN.md §3 C13",
         "note": "Trusted: visitor.rs hands each node the results of its inputs; syn parses what rustc builds. Completeness/optimality over arbitrary trees out of reach of static rules.",
     },
     "C16": {
         "technique": "reachability over an instantiation-aware (monomorphic) call graph built by a rustc_private MIR driver; who-may-reach rules for hash-order iteration, the global name counter, statics and ambient nondeterminism",
         "level": "Decides that no source of non-determinism (hash-order iteration with an order-sensitive consumer D1, the process-global name counter D2, other process state D3, RNG/clock/env/thread ids D4) is reachable from "
-                 "the parse, render and type entry points, for every instantiation the crate's own code makes, and that every Hash impl feeding the content-derived names covers the whole content (D5); the default sort direction and float literals are the same for reader and renderer (E19, E14) and quoted identifiers are never case-folded by the reader (D6). This is a necessary condition of deterministic compilation; semantic equality of re-parsed SQL is not decided.",
+                 "the parse, render and type entry points, for every instantiation the crate's own code makes, and that every Hash impl feeding the content-derived names covers the whole content (D5); the default sort direction and float literals are the same for reader and renderer (E19, E14) quoted identifiers are never case-folded by the reader (D6) and a table named by its path or its name never takes its other designation from the global counter (D7). This is a necessary condition of deterministic compilation; semantic equality of re-parsed SQL is not decided.",
         "design_ref": "DESIGN.md §3 C16",
         "note": "Trusted: rustc's Instance resolution; calls through fn pointers resolved at the reification site; drop glue not followed. One edge suppression with a checked caller invariant (qv/reach.py).",
     },
